@@ -133,7 +133,7 @@ class CSSStyleDeclaration(CSS2Properties, css_parser.util.Base2):
         """Iterator of set Property objects with different normalized names."""
         def properties():
             for name in self.__nnames():
-                yield self.getProperty(name)
+                yield self.__effective(name)
         return properties()
 
     def keys(self):
@@ -211,6 +211,21 @@ class CSSStyleDeclaration(CSS2Properties, css_parser.util.Base2):
             if isinstance(val, Property) and val.name not in names:
                 names.append(val.name)
         return reversed(names)
+
+    def __effective(self, nname):
+        """Return the effective Property for the already normalized name
+        `nname` as reported by ``__nnames`` (which must not be normalized
+        again as e.g. ``o\\x`` is not the same name as ``ox``).
+        """
+        found = None
+        for item in reversed(self.seq):
+            val = item.value
+            if isinstance(val, Property) and val.name == nname:
+                if val.priority:
+                    return val
+                elif not found:
+                    found = val
+        return found
 
     # overwritten accessor functions for CSS2Properties' properties
     def _getP(self, CSSName):
@@ -392,7 +407,7 @@ class CSSStyleDeclaration(CSS2Properties, css_parser.util.Base2):
                 return []
         elif not all:
             # effective Properties in name order
-            return [self.getProperty(name_) for name_ in self.__nnames()]
+            return [self.__effective(name_) for name_ in self.__nnames()]
         else:
             # all properties or all with this name
             nname = self._normalize(name)
